@@ -985,6 +985,89 @@ pub fn gen_overlay(rng: &mut Rng) -> Scenario {
     Scenario { ver, events, sets, chains, rejected }
 }
 
+/// A history in which one sender has two power events in the power graph, sent under different
+/// power levels: bob (level `lo`) changes the join rules, alice promotes him to `hi`, bob kicks dave;
+/// concurrently carol (level `mid`, `lo < mid < hi`) changes the join rules too. The forks are the
+/// two branch ends. The order of bob's first event relative to carol's depends on bob's level *at
+/// that event* (`lo`), not on his level at the kick (`hi`): an implementation that looks a sender's
+/// level up once per sender orders them by whichever of bob's events it met first.
+pub fn gen_promotion(rng: &mut Rng) -> Scenario {
+    for _attempt in 0..4 {
+        let ver = *rng.pick(&[6u32, 9, 10, 11]);
+        let mut room = Room {
+            ver,
+            rules: rules_of(ver),
+            events: Vec::new(),
+            store: HashMap::new(),
+            state_after: HashMap::new(),
+            views: vec![BTreeSet::new(); 3],
+            clock: 10,
+            used_ids: HashSet::new(),
+            stats: BTreeMap::new(),
+            rejected: Vec::new(),
+        };
+        let (alice, bob, carol, dave) = (USERS[0], USERS[1], USERS[2], USERS[3]);
+        let lo = *rng.pick(&[0i64, 10]);
+        let mid = *rng.pick(&[20i64, 30]);
+        let hi = *rng.pick(&[50i64, 75]);
+        let create = if ver >= 11 { json!({"room_version": ver.to_string()}) } else { json!({"creator": alice, "room_version": ver.to_string()}) };
+        let mut ok = true;
+        ok &= room.add(rng, 0, alice, "m.room.create", "", create, Some(vec![]));
+        ok &= room.add(rng, 0, alice, "m.room.member", alice, member("join"), None);
+        let pl0 = json!({"users": {alice: 100, bob: lo, carol: mid}, "events": {"m.room.join_rules": 0}});
+        ok &= room.add(rng, 0, alice, "m.room.power_levels", "", pl0.clone(), None);
+        ok &= room.add(rng, 0, alice, "m.room.join_rules", "", json!({"join_rule": "public"}), None);
+        room.gossip(rng, true);
+        for u in [bob, carol, dave] {
+            ok &= room.add(rng, server_of(u), u, "m.room.member", u, member("join"), None);
+            room.gossip(rng, true);
+        }
+        if !ok {
+            continue;
+        }
+        let base = room.tips(0);
+        // branch A: bob (lo) changes the join rules, is promoted, kicks dave
+        ok &= room.add(rng, 1, bob, "m.room.join_rules", "", json!({"join_rule": "invite", "n": 1}), Some(base.clone()));
+        let a1 = room.events.len() - 1;
+        let mut pl1 = pl0.clone();
+        pl1["users"][bob] = json!(hi);
+        ok &= room.add(rng, 0, alice, "m.room.power_levels", "", pl1, Some(vec![a1]));
+        let a2 = room.events.len() - 1;
+        let removal = *rng.pick(&["leave", "ban"]);
+        ok &= room.add(rng, 1, bob, "m.room.member", dave, member(removal), Some(vec![a2]));
+        let a3 = room.events.len() - 1;
+        // branch B: carol (mid) changes the join rules
+        ok &= room.add(rng, 2, carol, "m.room.join_rules", "", json!({"join_rule": "public", "n": 2}), Some(base));
+        let b1 = room.events.len() - 1;
+        if !ok || room.events.len() != 11 {
+            continue;
+        }
+        let mut forks = vec![a3, b1];
+        if rng.chance(1, 3) {
+            forks.push(rng.below(room.events.len()));
+        }
+        rng.shuffle(&mut forks);
+        let mut sets = Vec::new();
+        let mut chains = Vec::new();
+        for &f in &forks {
+            let st = &room.state_after[&room.events[f].id];
+            let mut set: Vec<(String, String, OwnedEventId)> =
+                st.iter().map(|((t, k), i)| (t.clone(), k.clone(), i.clone())).collect();
+            rng.shuffle(&mut set);
+            let mut chain: Vec<OwnedEventId> =
+                auth_chain(&room.store, st.values().cloned()).into_iter().collect();
+            rng.shuffle(&mut chain);
+            sets.push(set);
+            chains.push(chain);
+        }
+        let mut events = room.events.clone();
+        rng.shuffle(&mut events);
+        let rejected = room.rejected.clone();
+        return Scenario { ver, events, sets, chains, rejected };
+    }
+    gen_overlay(rng)
+}
+
 /// The F4 witness of DESIGN §7: two conflicting topics, one sent before the only power-levels
 /// event (ts 50), one citing it (ts 20).
 pub fn f4_witness(ver: u32) -> Scenario {
